@@ -52,7 +52,7 @@ Fields == [
                      target |-> Presence, sroot |-> Roots, mix |-> {"same", "alternate-empty", "same-account"}, patience |-> Patience, acct |-> AcctState],
   Proposal      |-> [id |-> Id, domain |-> DomainT, data |-> Presence, slot |-> U64, proposer |-> U64, parent |-> Roots, state |-> Roots, body |-> Roots,
                      patience |-> Patience, acct |-> AcctState],
-  List          |-> [count |-> Count, path |-> PathShape, mix |-> {"same", "distinct"}],
+  List          |-> [count |-> Count, path |-> PathShape, mix |-> {"same", "distinct", "with-valid"}],   \* with-valid: every other path names an accessible wallet
   Generate      |-> [account |-> Str, passphrase |-> Bytes, fill |-> Fill, participants |-> U32, threshold |-> U32],
   LockAccount   |-> [account |-> Str],
   UnlockAccount |-> [account |-> Str, passphrase |-> Bytes, fill |-> Fill],
